@@ -780,10 +780,13 @@ int main(int argc, char** argv)
 {
     if (argc < 2)
         return 2;
+    // argv[2]: number of the first case (the check restarts the harness after
+    // the case it crashed on, so that one crash does not hide the other cases)
+    const int base = argc > 2 ? std::atoi(argv[2]) : 0;
     std::setvbuf(stdout, nullptr, _IOLBF, 0);
-    for_each_case(argv[1], [](int k, const std::vector<std::string>& t) {
+    for_each_case(argv[1], [base](int k, const std::vector<std::string>& t) {
         tracker_begin();
-        run_case(k, t);
+        run_case(k + base, t);
         tracker_end();
     });
     return 0;
